@@ -222,7 +222,20 @@ def connection_clear(c):
     c.ensure("update_without_clear_keeps_accumulated_state", ulog == ([("apply", (), {})] if live else []))
     c.canary("canary_synapse_not_cleared", z3.BoolVal(not [e for e in log if e[0] == "clear"]))
 
+# the last link of "clearing a layer returns every component to rest": the REAL clear of every shipped synapse (part of the
+# C04 step contracts) and neuron class (C03 `*.clear`) - the layer contracts above use stubs that obey exactly these
+from pyvc.harness import REGISTRY as _REG  # noqa: E402
+from . import c03_neurons as _c03, c04_synapses as _c04  # noqa: E402,F401
+
+for _cd in list(_REG.get("C04", [])):
+    if _cd.name.endswith(".forward") and not any(x.name == _cd.name for x in _REG.get(P, [])):
+        contract(P, _cd.name, list(_cd.targets), min_obligations=_cd.min_obligations)(_cd.fn)
+for _cd in list(_REG.get("C03", [])):
+    if _cd.name.endswith(".clear") and not any(x.name == _cd.name for x in _REG.get(P, [])):
+        contract(P, _cd.name, list(_cd.targets), min_obligations=_cd.min_obligations)(_cd.fn)
+
 MUTANTS = [
+    dict(file="inferno/neural/synapses/expcurrent.py", func="DoubleExponentialCurrent.clear", old="        self.neg_current_.reset(0.0)", new="        self.pos_current_.reset(0.0)", contracts=["DoubleExponentialCurrent.forward"], name="seed C17e: clear never resets the rise component"),
     dict(file="inferno/neural/base.py", func="Connection.clear", old="        self.synapse.clear(**kwargs)", new="        self.synapse.clear()", contracts=["Connection.clear"]),
     dict(file="inferno/neural/base.py", func="Connection.clear", old="        Updatable.clear(self, **kwargs)\n", new="", contracts=["Connection.clear"]),
     dict(file=NW, func="Layer.clear", old="for connection in self.connections_.values():", new="for connection in self.connections_:", contracts=["Serial", "Biclique"], name="D17 regression: clear iterates ModuleDict keys"),
